@@ -17,8 +17,6 @@ type action struct {
 	Writers int      `json:"writers,omitempty"` // append: concurrent WriteLog callers (entries are spread over them)
 	Steps   int      `json:"steps,omitempty"`   // replicate: steps per partition, -1 = until nothing is pending
 	Split   bool     `json:"split,omitempty"`   // append: one entry per row instead of one per (shard, family)
-	// Reject: append an entry the replicator cannot apply (corrupt | garbage) behind the valid entries, same partition
-	Reject string `json:"reject,omitempty"`
 }
 
 // injection: when the Nth file-system operation of the flush step whose label starts with Prefix and contains
@@ -280,18 +278,8 @@ func (g *gen) replicate(all bool) action {
 	return action{Kind: "replicate", Steps: 1}
 }
 
-func (g *gen) rejectKind() string {
-	if g.r.Intn(2) == 0 {
-		return "corrupt"
-	}
-	return "garbage"
-}
-
 func (g *gen) arrival(maxRows int, replAll bool) []action {
 	acts := []action{g.appendAction(maxRows)}
-	if g.r.Intn(4) == 0 {
-		acts[0].Reject = g.rejectKind()
-	}
 	if g.r.Intn(3) == 0 {
 		acts = append(acts, g.appendAction(maxRows))
 	}
@@ -472,10 +460,7 @@ func makePlan(r *rand.Rand, idx int, tier string, t0 int64) *plan {
 	g.cycle = len(cycles)
 	g.inFlush = false
 	// tail: entries that stay in the log (partly not even replicated) when the history ends
-	// ... among them valid entries followed by an entry the replicator rejects, all replicated and none flushed
-	withReject := g.appendAction(3)
-	withReject.Reject, withReject.Split, withReject.Writers = "corrupt", false, 1
-	tail := []action{withReject, {Kind: "replicate", Steps: -1}, g.appendAction(3), g.replicate(false), g.appendAction(2)}
+	tail := []action{g.appendAction(3), g.replicate(false), g.appendAction(2)}
 	if r.Intn(2) == 0 {
 		tail = append(tail, action{Kind: "replicate", Steps: 1})
 	}
